@@ -18,8 +18,6 @@ verus! {
 //@include prelude/vecdeque.rs
 //@include prelude/option.rs
 
-pub assume_specification<T: ?Sized>[ Mutex::<T>::lock ](m: &Mutex<T>) -> (r: std::sync::LockResult<std::sync::MutexGuard<'_, T>>)
-    ensures r is Ok, guard_of(&r->Ok_0) == m;
 
 // effect witness (DESIGN 3.4)
 pub uninterp spec fn notified(c: &Condvar) -> bool;
@@ -30,7 +28,7 @@ pub assume_specification[ Condvar::notify_one ](c: &Condvar)
 pub uninterp spec fn may_block() -> bool;
 pub assume_specification<'a, T>[ Condvar::wait::<T> ](c: &Condvar, g: MutexGuard<'a, T>) -> (r: std::sync::LockResult<std::sync::MutexGuard<'a, T>>)
     requires may_block(),
-    ensures r is Ok, guard_of(&r->Ok_0) == guard_of(&g);   // the protected value after the wait is arbitrary: other threads ran
+    ensures r is Ok, guard_of(&r->Ok_0) == guard_of(&g), acq(&r->Ok_0) == gval(&r->Ok_0);   // the protected value after the wait is arbitrary: other threads ran
 
 //@include prelude/time.rs
 
@@ -82,21 +80,18 @@ proof fn axiom_receive_step<T: Send>(q: &MessagesQueue<T>, q0: Seq<Control<T>>, 
     ensures
         notified(self.cv()),   // every enqueue path notifies (while holding the lock)
         enqueued_elem(self, value),
-//@after 1 lock ( ) . unwrap ( )
-        let ghost q0 = gval(&queue)@;
 //@exit
-        // O-PUSH: atomic step  q' == q ++ [Elem(value)]  (nothing removed, nothing reordered)
-        proof { axiom_enqueue_elem(self, q0, gval(&queue)@, value); }
+        // O-PUSH: the critical section is the atomic step  q' == q ++ [Elem(value)]  (nothing removed, nothing reordered);
+        // acq(&queue) = the protected value when the lock was acquired, gval(&queue) = the value now
+        proof { axiom_enqueue_elem(self, acq(&queue)@, gval(&queue)@, value); }
 //@endfn
 
 //@fn unblock props C17,C07
 //@spec
     ensures notified(self.cv()), enqueued_unblock(self),
-//@after 1 lock ( ) . unwrap ( )
-        let ghost q0 = gval(&queue)@;
 //@exit
         // O-UNBLOCK: exactly one token is appended; queued requests are neither discarded, duplicated nor reordered
-        proof { axiom_enqueue_unblock(self, q0, gval(&queue)@); }
+        proof { axiom_enqueue_unblock(self, acq(&queue)@, gval(&queue)@); }
 //@endfn
 
 //@fn pop ret res props C07,C17
@@ -106,30 +101,27 @@ proof fn axiom_receive_step<T: Send>(q: &MessagesQueue<T>, q0: Seq<Control<T>>, 
         proof { assume(may_block()); }   // recv() is a blocking receive
 //@loop 1
             invariant may_block(),
-//@loopentry 1
-            let ghost q0 = gval(&queue)@;
+                // at the loop head nothing has been changed since the lock was last (re)acquired
+                gval(&queue)@ == acq(&queue)@,
 //@atexit
-                    // O-POP: atomic step: the head is removed and handed to exactly this caller; an Unblock token is consumed
-                    // by exactly one receive call, which returns empty-handed; a blocking receive never returns otherwise
-                    proof { axiom_receive_step(self, q0, gval(&queue)@, $r, false); }
-//@before? 1 queue = self . condvar . wait
+                    // O-POP: atomic step (from the last (re)acquisition of the lock to now): the head is removed and handed to
+                    // exactly this caller; an Unblock token is consumed by exactly one receive call, which returns
+                    // empty-handed; a blocking receive never returns otherwise
+                    proof { axiom_receive_step(self, acq(&queue)@, gval(&queue)@, $r, false); }
+//@before? 1 . wait (
             // it blocks only after having inspected the queue, under the lock, and found it empty
-            proof { assert(gval(&queue)@ == q0 && q0.len() == 0); }
+            proof { assert(gval(&queue)@ == acq(&queue)@ && gval(&queue)@.len() == 0); }
 //@endfn
 
 //@fn try_pop ret res props C07,C17
 //@spec
     ensures received(self, res),     // and no may_block(): it cannot call Condvar::wait*
-//@after 1 lock ( ) . unwrap ( )
-        let ghost q0 = gval(&queue)@;
 //@atexit
         // O-TRYPOP: one atomic step: at most the head is removed, a request goes to exactly this caller, an Unblock
         // token makes exactly this call come back empty-handed
-        proof { axiom_receive_step(self, q0, gval(&queue)@, $r, true); }
+        proof { axiom_receive_step(self, acq(&queue)@, gval(&queue)@, $r, true); }
 //@endfn
 
-// loops see the facts established before them (a refactoring that introduces a new local, e.g. `let start = Instant::now()`, needs no new invariant)
-#[verifier::loop_isolation(false)]
 //@fn pop_timeout ret res props C07,C17
 //@spec
     ensures received(self, res),
@@ -139,26 +131,23 @@ proof fn axiom_receive_step<T: Send>(q: &MessagesQueue<T>, q0: Seq<Control<T>>, 
         // ghost monotonic clock (R18): t0 = the time of the call
         let tracked mut verif_clk = verif_clock_start();
         let ghost t0 = verif_clk.t;
-        let ghost mut q0: Seq<Control<T>> = Seq::empty();
 //@loop 1
             invariant may_block(), verif_clk.t >= t0,
+                gval(&queue)@ == acq(&queue)@,
                 // O-TIME-BOOK: `duration` (what the code believes is left of the timeout) never under-estimates:
                 // remaining + really elapsed >= timeout; and it never exceeds the timeout
                 nanos(duration) + (verif_clk.t - t0) >= nanos(timeout),   // [C17,C07]
                 nanos(duration) <= nanos(timeout),   // [C17]
 //@loopentry 1
             broadcast use axiom_duration_ord, axiom_duration_sub;
-            proof { q0 = gval(&queue)@; }
 //@atexit
-                    proof { axiom_receive_step(self, q0, gval(&queue)@, $r, true); }
+                    proof { axiom_receive_step(self, acq(&queue)@, gval(&queue)@, $r, true); }
                     // O-TIME-LOWER (C17, C07): an empty-handed return that is not caused by an Unblock token happens only
                     // when (all but the last millisecond of) the timeout has really elapsed since the call: a receiver
                     // never gives up early, swallowing a wake-up that was meant for a request still queued
-                    proof { assert($r is None ==> (q0.len() > 0 && q0[0] is Unblock) || verif_clk.t - t0 + 1_000_000 > nanos(timeout)); }   // [C17,C07]
+                    proof { assert($r is None ==> (acq(&queue)@.len() > 0 && acq(&queue)@[0] is Unblock) || verif_clk.t - t0 + 1_000_000 > nanos(timeout)); }   // [C17,C07]
 //@before? 1 . wait_timeout (
-            proof { assert(gval(&queue)@ == q0 && q0.len() == 0); }
-//@after? 1 queue = _queue
-            proof { q0 = gval(&queue)@; }   // after the wait the protected value is whatever the other threads left
+            proof { assert(gval(&queue)@ == acq(&queue)@ && gval(&queue)@.len() == 0); }
 //@endfn
 //@endimpl
 
